@@ -33,6 +33,7 @@ Proof.
     rewrite (IHe1 _ _ R1), (IHe2 _ _ R2). reflexivity.
   - destruct t as [| | | |b ? ? t]; try contradiction. destruct b; try contradiction.
     destruct R as (_ & R). cbn [img Compile.size Ast.size]. rewrite (IHe _ _ R). lia.
+  - destruct t; try contradiction. destruct R as (_ & _ & R). cbn [img Compile.size Ast.size]. rewrite (IHe _ _ R). lia.
 Qed.
 
 Section Prog.
